@@ -29,6 +29,19 @@ type sqTok struct {
 }
 
 func isUpperLetter(b byte) bool { return b >= 'A' && b <= 'Z' }
+func isIdentByte(b byte) bool {
+	return b == '_' || (b >= 'a' && b <= 'z') || (b >= 'A' && b <= 'Z') || (b >= '0' && b <= '9')
+}
+
+func lowerASCII(s string) string {
+	b := []byte(s)
+	for i := range b {
+		if b[i] >= 'A' && b[i] <= 'Z' {
+			b[i] += 32
+		}
+	}
+	return string(b)
+}
 func isDigitB(b byte) bool      { return b >= '0' && b <= '9' }
 
 // pgLex splits sql into tokens; anything the fragment does not contain (comments, semicolons,
@@ -108,11 +121,34 @@ func pgLex(sql string) []sqTok {
 			w := sql[i:j]
 			switch w {
 			case "AND", "OR", "NOT", "BETWEEN", "IN", "SIMILAR", "TO":
+				if j < len(sql) && isIdentByte(sql[j]) {
+					// a longer unquoted word: an identifier, folded to lower case by PostgreSQL
+					k := j
+					for k < len(sql) && isIdentByte(sql[k]) {
+						k++
+					}
+					out = append(out, sqTok{sqIdent, lowerASCII(sql[i:k])})
+					i = k
+					continue
+				}
 				out = append(out, sqTok{sqKeyword, w})
 			default:
-				return append(out, sqTok{sqBad, "word " + w})
+				k := j
+				for k < len(sql) && isIdentByte(sql[k]) {
+					k++
+				}
+				out = append(out, sqTok{sqIdent, lowerASCII(sql[i:k])})
+				j = k
 			}
 			i = j
+		case c == '_' || (c >= 'a' && c <= 'z'):
+			// unquoted identifier (PostgreSQL folds it to lower case): a column reference
+			k := i
+			for k < len(sql) && isIdentByte(sql[k]) {
+				k++
+			}
+			out = append(out, sqTok{sqIdent, lowerASCII(sql[i:k])})
+			i = k
 		default:
 			return append(out, sqTok{sqBad, "character"})
 		}
